@@ -135,7 +135,11 @@ def scenario(ch, cfg):
         elif k == 1:
             ops.append(["get", keys[ch.draw(nkeys, "k")]])
         elif k == 2:
-            ops.append(["getmissing", missing_key])
+            # never-set keys: one unrelated to everything, the directory prefixes of the nested keys in use
+            # ("d" and "g/h" when "d/e", "g/h/i" are keys) and paths below a flat key ("a/zz")
+            cands = [missing_key] + sorted({"/".join(kk.split("/")[:j]) for kk in keys for j in range(1, kk.count("/") + 1)}) \
+                + [kk + "/zz" for kk in keys if "/" not in kk]
+            ops.append(["getmissing", cands[ch.draw(len(cands), "missingkind")]])
         elif k == 3:
             ops.append(["reopen"])
         elif k == 4:
@@ -222,6 +226,8 @@ def scenario(ch, cfg):
                 want = model.get(key, ("undef",))
                 if kind == "getmissing" or key not in model:
                     stats["probe_missing_get"] += 1
+                    if key != missing_key and any(mk.startswith(key + "/") or key.startswith(mk + "/") for mk in model):
+                        stats["probe_missing_get_on_the_path_of_a_set_key"] += 1
                 if res != want and iof is not None and iof["key"] == key and res == ("raised", "OSError"):
                     stats["probe_get_raised_after_read_error"] += 1
                 elif res != want:
